@@ -275,6 +275,7 @@ func (pc *PacketConn) Close() error {
 	if pc.cancel != nil {
 		pc.cancel()
 	}
+	verifPause("packetconn.close.before_withdraw")
 	if pc.advertise {
 		err := pc.s.RemoveLocalServiceAdvertisement(pc.localService)
 		if err != nil {
